@@ -243,6 +243,89 @@ def _truth(tokstr):
     return True
 
 
+HASH_EQUAL_GROUPS = [[1, True, 1.0], [0, False, 0.0], [2, 2.0], [(1,), (True,), (1.0,)], [[1], [True]], ['1', 1],
+                     ['True', True], ['', 0, None, False]]
+
+
+class RuleSequenceStream(Stream):
+    name = 'rule_evaluation_sequences'
+    imports = 'From Vakt Require Import Model.Regex Model.Rules Harness.RunC05.'
+    case_type = 'rscase'
+    run_fn = 'run_rule_seq'
+    rule = ('ONE rule object evaluated on a sequence of 3-8 operands that contains values which are == and hash-equal '
+            'but of different type (1 / True / 1.0, 0 / False / 0.0, (1,) / (True,), "1" / 1 ...) and repeats; every '
+            'answer is compared with the model (a function of rule, value and inquiry only); oracle: a fresh rule '
+            'object in a fresh evaluation order gives the same answers. non-trivial = sequence containing two '
+            'hash-equal operands of different type')
+
+    def generate(self, rng, tier):
+        n = 1200 if tier == 'quick' else 12000
+        for _ in range(n):
+            r = rng.random()
+            if r < 0.35:
+                rx = rng.choice([['plus', ['cls', False, [[48, 57]]]],
+                                 ['cat', ['plus', ['cls', False, [[48, 57]]]], ['opt', ['chr', 46]]],
+                                 ['alt', gen.rx_of_literal('True'), ['chr', 49]],
+                                 ['cat', ['cls', False, [[48, 49]]], ['star', ['dot']]]])
+                rule = [rng.choice(['RegexMatch', 'RegexMatchRule']), rx]
+            elif r < 0.5:
+                rule = ['Not', [rng.choice(['RegexMatch']), ['plus', ['cls', False, [[48, 57]]]]]]
+            else:
+                rule = gen.rule(rng, rng.choice([0, 1, 2]), inquiry_rules=False, raising=False)
+            ops = []
+            for _k in range(rng.randint(2, 4)):
+                g = rng.choice(HASH_EQUAL_GROUPS)
+                ops += rng.sample(g, min(len(g), rng.randint(2, 3)))
+            if rng.random() < 0.5:
+                ops.append(gen.operand_for(rng, rule))
+            rng.shuffle(ops)
+            ops = ops[:8]
+            if rule[0] in ('RegexMatch', 'RegexMatchRule') or rule[0] == 'Not':
+                ops = [o for o in ops if o is None or isinstance(o, (bool, int, str)) and not isinstance(o, float)]
+                if len(ops) < 2:
+                    ops = [1, True, 1]
+            yield {'rule': rule, 'whats': [jv(o) for o in ops], 'inq': None}
+
+    def emit(self, c):
+        return '{| rs_rule := %s; rs_whats := %s; rs_inq := (@None inquiry) |}' % (
+            specs.e_rule(c['rule']), e_list([ev(w) for w in c['whats']], 'val'))
+
+    def _run(self, c, order=None):
+        r = specs.mk_rule(c['rule'])
+        ws = [py(w) for w in c['whats']]
+        idx = list(range(len(ws))) if order is None else order
+        out = {}
+        for i in idx:
+            out[i] = run_py(lambda: r.satisfied(ws[i], None), _show_result)
+        return [out[i] for i in range(len(ws))]
+
+    def impl(self, c):
+        return ','.join(self._run(c))
+
+    def oracle(self, c, obs):
+        rev = ','.join(self._run(c, order=list(reversed(range(len(c['whats']))))))
+        if rev != obs:
+            return 'the answers depend on the order of evaluation: %s forwards, %s backwards' % (obs, rev)
+        return None
+
+    def nontrivial(self, c, obs):
+        ws = [py(w) for w in c['whats']]
+        for i in range(len(ws)):
+            for j in range(i + 1, len(ws)):
+                try:
+                    if type(ws[i]) is not type(ws[j]) and ws[i] == ws[j] and hash(ws[i]) == hash(ws[j]):
+                        return True
+                except TypeError:
+                    pass
+        return False
+
+    def shrink(self, c):
+        ws = c['whats']
+        for i in range(len(ws)):
+            if len(ws) > 1:
+                yield dict(c, whats=ws[:i] + ws[i + 1:])
+
+
 class RegexStream(Stream):
     name = 'regex_semantics'
     imports = 'From Vakt Require Import Model.Regex Harness.RunC05.'
@@ -340,7 +423,7 @@ ASSUME = ['NaN/inf floats, user classes with custom __eq__/__hash__/__bool__, ca
 
 
 def main(argv):
-    return run_check('C05', [OpsStream(), RegexStream(), IpStream(), RulesStream()], argv,
+    return run_check('C05', [OpsStream(), RegexStream(), IpStream(), RulesStream(), RuleSequenceStream()], argv,
                      trusted_base=TRUSTED, assumptions=ASSUME)
 
 
